@@ -1811,7 +1811,9 @@ class _GroupElem(ABC):
         dim = self.__dim
         connect = self._global_to_local_nodes[self.connect]
 
-        tol = 1e-12
+        # tolerance (a length) relative to the magnitude of the element's coordinates: the round-off
+        # of a point lying on an edge or a face grows with them (meshes in mm, large models)
+        tol = 1e-12 * np.abs(self.coord[connect[elem]]).max()
 
         if dim == 0:
             coord = self.coord[connect[elem, 0]]
@@ -2211,7 +2213,7 @@ class _GroupElem(ABC):
         else:
             xn, yn, zn = coordinates_n.T
             xe, ye, ze = coordElem.T
-            tol = 1e-12
+            tol = 1e-12 * np.abs(coordElem).max()  # relative to the coordinates' magnitude
 
             idx = np.where(
                 (xn >= np.min(xe) - tol)
